@@ -211,11 +211,26 @@ let tie_leg (c : case) =
             let ok = obs_eqb true c.kv m (alt List.rev) && obs_eqb true c.kv m (alt rotate) in
             if not ok then bump "skipped_order_dependent";
             ok in
+          (* an error on one side and items on the other, on a path whose outcome may depend on member order:
+             comparable when the model gives one and the same outcome under every rotation of the members (each
+             member is first once and last once), their reversal included — then no order explains the difference *)
+          let order_insensitive_all () =
+            let alt perm = obs_of_q (api_query (lib_with_order c perm) fuel c.path c.doc o) in
+            let rot2 l = rotate (rotate l) in
+            let rot3 l = rotate (rot2 l) in
+            let perms = [List.rev; rotate; rot2; rot3; (fun l -> rotate (rot3 l)); (fun l -> rotate (rotate (rot3 l))); (fun l -> List.rev (rotate l)); (fun l -> List.rev (rot2 l))] in
+            let ok = List.for_all (fun pm -> let a = alt pm in
+                                    (match a, m with ObItems _, ObItems _ | ObErr _, ObErr _ -> true | _ -> false)
+                                    && obs_eqb true c.kv m a) perms in
+            if not ok then bump "skipped_order_dependent";
+            ok in
           let comparable =
             if not c.unordered then true
             else (entry = "query" && not r.silent && r.k < 0
-                  && (match impl, m with ObItems _, ObItems _ -> true | _ -> false)
-                  && order_insensitive ()) in
+                  && (match impl, m with
+                      | ObItems _, ObItems _ -> order_insensitive ()
+                      | ObErr _, ObItems _ | ObItems _, ObErr _ -> not c.haskv && order_insensitive_all ()
+                      | _ -> false)) in
           if comparable && not (obs_eqb c.unordered c.kv impl m) then begin
             if !missed then bump "oracle_miss"
             else begin
